@@ -797,10 +797,13 @@ class _Stale(Client):
 def identifier_field(sf: StorageFacts) -> Optional[str]:
     """the writer's identifier: the non-shared field that __setitem__ publishes as the first component of the index entry"""
     f = sf.setitem
+    fl = Flow(f.node)
     for n in walk_own(f.node):
+        val = fl.expand(n.value) if isinstance(n, ast.Assign) and isinstance(n.value, ast.Name) else getattr(n, "value", None)
         if isinstance(n, ast.Assign) and isinstance(n.targets[0], ast.Subscript) and dotted(n.targets[0].value) == (f.self_name, sf.index) \
-                and isinstance(n.value, ast.Tuple) and n.value.elts:
-            d = dotted(n.value.elts[0])
+                and isinstance(val, ast.Tuple) and val.elts:
+            first = fl.expand(val.elts[0]) if isinstance(val.elts[0], ast.Name) else val.elts[0]
+            d = dotted(first)
             if d and len(d) == 2 and d[0] == f.self_name and d[1] not in sf.shared_lists + sf.shared_values:
                 return d[1]
     return None
